@@ -52,7 +52,9 @@ type RunConfig struct {
 	TimeoutMs  int // per query
 	Deadline   time.Time
 	StopAtFirstViolation bool
+	AuditEvery int // sample a model of every n-th completed path for native audit
 	Trace      bool
+	MaxAudits  int
 }
 
 type HarnessResult struct {
@@ -68,6 +70,7 @@ type HarnessResult struct {
 	Wall         time.Duration
 	Functions    map[string]int64 // subject functions entered, call counts
 	Samples      []PathResult
+	Audits       []PathResult
 	Truncated    bool
 	Unknowns     int
 	Events       map[string]int
@@ -169,6 +172,20 @@ func (e *Engine) Harnesses(prop string) []string {
 	return out
 }
 
+// AllHarnesses lists the short names of all H_* functions of a package.
+func (e *Engine) AllHarnesses(pkgPath string) []string {
+	var out []string
+	if p := e.Pkgs[pkgPath]; p != nil {
+		for name, m := range p.Members {
+			if _, ok := m.(*ssa.Function); ok && strings.HasPrefix(name, "H_") {
+				out = append(out, name)
+			}
+		}
+	}
+	sort.Strings(out)
+	return out
+}
+
 func (e *Engine) lookupFn(full string) *ssa.Function {
 	k := strings.LastIndex(full, ".")
 	p := e.Pkgs[full[:k]]
@@ -186,6 +203,7 @@ func (e *Engine) newInterpreter(cfg RunConfig) (*interpreter, error) {
 		goroutines: 1,
 		eng:        e,
 		stepBudget: cfg.StepBudget,
+		auditEvery: cfg.AuditEvery,
 		tier:       cfg.Tier,
 		seed:       cfg.Seed,
 	}
@@ -345,6 +363,14 @@ func (i *interpreter) runPath(h *ssa.Function, prefix []int32) (res PathResult) 
 	}
 	call(i, nil, token.NoPos, h, nil)
 	res.Status = "ok"
+	if i.auditEvery > 0 {
+		i.auditCount++
+		if i.auditCount%i.auditEvery == 1 || i.auditEvery == 1 {
+			if m, r := i.sol.ModelWith(smt.True, i.inputVars()); r == smt.Sat {
+				res.Model = m
+			}
+		}
+	}
 	return
 }
 
@@ -438,6 +464,9 @@ func (e *Engine) Explore(full string, cfg RunConfig) (*HarnessResult, error) {
 					if len(hr.Samples) < 3 {
 						hr.Samples = append(hr.Samples, res)
 					}
+					if res.Model != nil && len(hr.Audits) < cfg.MaxAudits {
+						hr.Audits = append(hr.Audits, res)
+					}
 				}
 				work = append(work, res.NewWork...)
 				if cfg.MaxPaths > 0 && hr.Paths >= cfg.MaxPaths && len(work) > 0 {
@@ -488,4 +517,53 @@ func PrintResult(w *os.File, hr *HarnessResult) {
 			fmt.Fprintf(w, "%s\n", v.Stack)
 		}
 	}
+}
+
+// ExpectedCovers statically collects the constant labels passed to vCover by
+// the harness and by the harness-side helpers it (transitively) calls.
+func (e *Engine) ExpectedCovers(full string) []string {
+	h := e.lookupFn(full)
+	if h == nil {
+		return nil
+	}
+	seen := map[*ssa.Function]bool{}
+	labels := map[string]bool{}
+	var visit func(fn *ssa.Function)
+	visit = func(fn *ssa.Function) {
+		if fn == nil || seen[fn] || fn.Blocks == nil {
+			return
+		}
+		seen[fn] = true
+		pos := e.Fset.Position(fn.Pos())
+		if !strings.Contains(pos.Filename, "zz_verif_") {
+			return
+		}
+		for _, b := range fn.Blocks {
+			for _, ins := range b.Instrs {
+				if mc, ok := ins.(*ssa.MakeClosure); ok {
+					visit(mc.Fn.(*ssa.Function))
+				}
+				c, ok := ins.(ssa.CallInstruction)
+				if !ok {
+					continue
+				}
+				callee := c.Common().StaticCallee()
+				if callee == nil {
+					continue
+				}
+				if callee.Name() == "vCover" && len(c.Common().Args) == 1 {
+					if k, ok := c.Common().Args[0].(*ssa.Const); ok {
+						labels[constValue(k).(string)] = true
+					}
+					continue
+				}
+				visit(callee)
+			}
+		}
+		for _, af := range fn.AnonFuncs {
+			visit(af)
+		}
+	}
+	visit(h)
+	return sortedKeys(labels)
 }
